@@ -174,6 +174,9 @@ func corsRequests(hostile bool, c corsCfg) []corsReq {
 			}
 		}
 	}
+	addH("content-type,") // an empty list member (a trailing comma, an empty field line) asks for nothing
+	addH("Content-Type\n")
+	addH(",content-type")
 	addH("\nX-Bad") // an empty first field line, the foreign name on the second
 	addH(" \nX-Bad\n")
 	addH("Content-Type\nX-Bad") // the list spread over two field lines: an allowed name first, a foreign one on the second line
@@ -455,8 +458,8 @@ func corsJob(raw json.RawMessage) (any, error) {
 			if preflight && q.HasACRH && !anyHeaders {
 				class = "requested-header-case"
 				for _, x := range strings.Split(acrhList(q.ACRH), ",") {
-					if !contains(c.Headers, strings.TrimSpace(x)) {
-						class = "requested-header-case"
+					if strings.TrimSpace(x) == "" {
+						class = "requested-list-empty-member"
 					}
 				}
 			}
